@@ -62,6 +62,20 @@ def histories(r):
     return out
 
 
+def driver_stderr_heads(ctx):
+    """First lines of what died drivers wrote to stderr (the framework reports only the tail, which for a Go runtime
+    crash is the end of the goroutine dump; the cause is at the head)."""
+    import glob
+    heads = []
+    for f in sorted(glob.glob(os.path.join(ctx.scratch, 'rp*', 'err*.txt'))):
+        try:
+            if os.path.getsize(f) > 0:
+                with open(f, errors='replace') as fh:
+                    heads.append(os.path.basename(f) + ': ' + fh.read(2500))
+        except OSError:
+            pass
+    return heads
+
 def run(ctx):
     thorough = ctx.tier == 'thorough'
     tab = series_tab(ctx)
@@ -187,6 +201,10 @@ def run(ctx):
     tolerate = ','.join(k['pattern'] for k in ctx.known if k.get('property') == ctx.id and not str(k.get('status', 'open')).startswith('fixed'))
     res, lines = ctx.replay(binary, chosen, timeout=1500 if not thorough else 1700, procs=min(16, ncpu), args={'tolerate': tolerate}, case_timeout='900s')
     ctx.absorb(res, lines)
+    for h in driver_stderr_heads(ctx)[:4]:
+        vlib.log('driver stderr head: ' + h)
+        if ctx.infra:
+            ctx.infra.append('driver stderr head: ' + h[:1400])
     stopped = sum(1 for x in res if (x.get('extra') or {}).get('stopped'))
     structs = set()
     for x in res:
